@@ -233,10 +233,12 @@ def build_harness(profile="debug", hooks=True):
 # ------------------------------------------------------------------------------------------------
 # sharded execution
 
-def run_sharded(exe, cases, extra_args=(), timeout=1800, shards=None, tag="run"):
+def run_sharded(exe, cases, extra_args=(), timeout=1800, shards=None, tag="run", stall=None):
     """Run `exe <file> extra_args` over the cases split into shards; returns the output lines."""
     os.makedirs(WORK, exist_ok=True)
     n = len(cases)
+    if stall is None:
+        stall = int(os.environ.get("VERIF_STALL", "900" if os.environ.get("VERIF_SOAK") else "300"))
     shards = shards or (NPROC if n >= 2000 else 1)
     size = (n + shards - 1) // shards if n else 1
     procs = []
@@ -255,10 +257,25 @@ def run_sharded(exe, cases, extra_args=(), timeout=1800, shards=None, tag="run")
     lines = []
     t0 = time.time()
     for p, path, outp, fo, cnt in procs:
-        try:
-            p.wait(timeout=max(1, timeout - (time.time() - t0)))
-        except subprocess.TimeoutExpired:
-            p.kill()
+        # wait, but give up on a process that has stopped producing output (a hung runner, e.g. after heap corruption)
+        last_size, last_change = -1, time.time()
+        while True:
+            try:
+                p.wait(timeout=2)
+                break
+            except subprocess.TimeoutExpired:
+                pass
+            try:
+                size = os.path.getsize(outp)
+            except OSError:
+                size = 0
+            now = time.time()
+            if size != last_size:
+                last_size, last_change = size, now
+            if now - t0 > timeout or now - last_change > stall:
+                p.kill()
+                p.wait()
+                break
         fo.close()
         got = open(outp).read().split("\n")
         if got and got[-1] == "":
@@ -281,7 +298,7 @@ def run_sharded(exe, cases, extra_args=(), timeout=1800, shards=None, tag="run")
                 f.write("\n".join(rest) + "\n")
             try:
                 p = subprocess.run([exe, rpath] + list(extra_args), stdout=subprocess.PIPE, stderr=subprocess.DEVNULL, text=True, errors="replace",
-                                   timeout=max(1, timeout - (time.time() - t0)))
+                                   timeout=max(1, min(40, timeout - (time.time() - t0))))
                 more = p.stdout.split("\n")
             except subprocess.TimeoutExpired as e:
                 more = (e.stdout or b"").decode("utf-8", "replace").split("\n") if isinstance(e.stdout, bytes) else (e.stdout or "").split("\n")
